@@ -603,6 +603,171 @@ theorem updateIdH_values (I : Interp ω α) (s : State κ ω α) (old new : κ) 
             simp only [Option.map_some]
             exact PExpr.evalPt_replace I.opf I.negf old new _ _ ihk p v h
 
+
+/-- The invariant (well-formedness, one list object per link object, coherence) survives the loop
+of `update_id` — whatever the table holds. -/
+theorem foldRepl_inv (old new : κ) (h0 : Heap κ ω α) (hi : h0.Inv) :
+    ∀ (es : List (κ × Comp κ NodeId α)) (h : Heap κ ω α), E old new h0 h → h.Coherent →
+    E old new h0 (es.foldl (replStep old new) h) ∧ (es.foldl (replStep old new) h).Coherent
+  | [], h, e, hc => ⟨e, hc⟩
+  | p :: es, h, e, hc => by
+    simp only [List.foldl_cons]
+    have step : E old new h0 (replStep old new h p) ∧ (replStep old new h p).Coherent := by
+      unfold replStep
+      cases hn : nodeOf p.2 with
+      | none => exact ⟨e, hc⟩
+      | some n =>
+        exact ⟨replaceIds_E old new h0 _ h n e, replaceIds_coh old new h0 hi.own _ h n e hc⟩
+    exact foldRepl_inv old new h0 hi es _ step.1 step.2
+
+/-- **Every call keeps the heap invariant**: `add_component`, `add_component_link` and
+`remove_component` do not touch link objects at all; `update_id` rewrites them in place and keeps
+well-formedness, "one list object per link object" (no aliasing) and coherence. -/
+theorem implCallH_inv (s s' : State κ ω α) (c : HCall κ α) (hi : s.h.Inv)
+    (hc : implCallH s c = some s') : s'.h.Inv := by
+  cases c with
+  | addS k a =>
+    simp only [implCallH] at hc
+    cases h1 : addComp s.t k (.prim a false) with
+    | none => simp [h1] at hc
+    | some t => simp only [h1, Option.map_some, Option.some.injEq] at hc; rw [← hc]; exact hi
+  | add k n =>
+    simp only [implCallH] at hc
+    split at hc
+    · cases h1 : addComp s.t k (ptr n) with
+      | none => simp [h1] at hc
+      | some t => simp only [h1, Option.map_some, Option.some.injEq] at hc; rw [← hc]; exact hi
+    · cases hc
+  | addRaw k n =>
+    simp only [implCallH] at hc
+    cases h1 : addComp s.t k (ptr n) with
+    | none => simp [h1] at hc
+    | some t => simp only [h1, Option.map_some, Option.some.injEq] at hc; rw [← hc]; exact hi
+  | remove k =>
+    simp only [implCallH] at hc
+    cases h1 : s.t.find k with
+    | none => simp only [h1, Option.some.injEq] at hc; rw [← hc]; exact hi
+    | some c' =>
+      simp only [h1] at hc
+      split at hc
+      · cases hc
+      · simp only [Option.some.injEq] at hc; rw [← hc]; exact hi
+  | update o n =>
+    simp only [implCallH] at hc
+    split at hc
+    · simp only [Option.some.injEq] at hc; rw [← hc]; exact hi
+    · split at hc
+      · cases hc
+      · simp only [Option.some.injEq] at hc
+        rw [← hc]
+        unfold updateIdH
+        split
+        · exact hi
+        · split
+          · obtain ⟨e, hcoh⟩ := foldRepl_inv o n s.h hi (updateId false s.t o n) s.h
+              (E.refl o n s.h) hi.coh
+            exact ⟨e.wf hi.wf, e.own hi.own, hcoh⟩
+          · exact hi
+
+
+/-! #### visiting a shared object a second time changes nothing -/
+
+theorem modify_self {β : Type} (l : List β) (i : Nat) (f : β → β)
+    (h : ∀ x, l[i]? = some x → f x = x) : l.modify i f = l := by
+  apply List.ext_getElem?
+  intro j
+  rw [List.getElem?_modify]
+  cases hj : l[j]? with
+  | none => rfl
+  | some x =>
+    by_cases hij : i = j
+    · subst hij; simp [h x hj]
+    · simp [hij]
+
+theorem set_self {β : Type} (l : List β) (i : Nat) (x : β) (h : l[i]? = some x) : l.set i x = l := by
+  apply List.ext_getElem?
+  intro j
+  rw [List.getElem?_set]
+  by_cases hij : i = j
+  · subst hij
+    have hlt : i < l.length := (List.getElem?_eq_some_iff.mp h).1
+    simp only [if_true, hlt]
+    exact h.symm
+  · simp [hij]
+
+/-- On objects that are already `old`-free (cells included, by coherence) `replace_ids` is the
+identity. -/
+theorem replaceIds_noop (old new : κ) : ∀ (fuel : Nat) (h : Heap κ ω α) (n : NodeId),
+    h.Coherent → (∀ x, HReach h n x → FreeAt old h x) → replaceIds old new fuel h n = h
+  | 0, _, _, _, _ => rfl
+  | fuel + 1, h, n, hc, hf => by
+    simp only [replaceIds]
+    cases hn : h.nodes[n]? with
+    | none => rfl
+    | some nd =>
+      obtain ⟨ids, hcell, hdef⟩ := hc n nd hn
+      have hfn := hf n (.refl n)
+      have hidsfree : old ∉ ids := hfn.defs ids hdef
+      have h0 : (h.renList nd.frm old new).renDef n old new = h := by
+        have e1 : h.lists.modify nd.frm (·.map (ren old new)) = h.lists :=
+          modify_self _ _ _ (fun x hx => by
+            rw [hcell] at hx; cases hx; exact map_ren_fix ids hidsfree)
+        have e2 : h.defIds.modify n (·.map (ren old new)) = h.defIds :=
+          modify_self _ _ _ (fun x hx => by
+            rw [hdef] at hx; cases hx; exact map_ren_fix ids hidsfree)
+        simp only [Heap.renList, Heap.renDef, e1, e2]
+      cases nd with
+      | func f rv frm => exact h0
+      | parsed c frm =>
+        simp only [Node.frm] at h0
+        simp only
+        rw [h0]
+        have e3 : h.cmds.modify c (·.replace old new) = h.cmds :=
+          modify_self _ _ _ (fun p hp => PExpr.replace_fix p (hfn.cmd c frm p hn hp))
+        simp only [Heap.renCmd, e3]
+      | binary o l r frm =>
+        simp only [Node.frm] at h0
+        simp only
+        rw [h0]
+        have hop : ∀ (o' : Opnd κ α), (∀ m ∈ o'.links, m ∈ (Node.binary o l r frm).links) →
+            replaceOp (replaceIds old new fuel) h o' = h := by
+          intro o' hsub
+          cases o' with
+          | const c => rfl
+          | cid k => rfl
+          | link m =>
+            exact replaceIds_noop old new fuel h m hc
+              (fun x hx => hf x (.step hn (hsub m (by simp [Opnd.links])) hx))
+        rw [hop l (fun m hm => by simp [Node.links, hm]), hop r (fun m hm => by simp [Node.links, hm])]
+        have hfree := hfn.node _ hn
+        have : Node.binary o (l.ren old new) (r.ren old new) frm = Node.binary o l r frm := by
+          rw [Opnd.ren_fix l hfree.1, Opnd.ren_fix r hfree.2]
+        rw [this]
+        simp only [Heap.setNode, set_self _ _ _ hn]
+
+/-- **`replace_ids` applied twice is `replace_ids` applied once**: a link object that is shared —
+the operand of several expressions, or backing several derived attributes — is visited once per
+path by `update_id`; every visit after the first leaves the whole heap as it is. -/
+theorem replaceIds_twice (old new : κ) (hne : new ≠ old) (fuel : Nat) (h : Heap κ ω α) (n : NodeId)
+    (hi : h.Inv) (hlt : n < fuel) :
+    replaceIds old new fuel (replaceIds old new fuel h n) n = replaceIds old new fuel h n := by
+  have e := replaceIds_E old new h fuel h n (E.refl old new h)
+  apply replaceIds_noop old new fuel _ n
+    (replaceIds_coh old new h hi.own fuel h n (E.refl old new h) hi.coh)
+  intro x hx
+  -- reachability in the rewritten heap is reachability in the original heap
+  have hback : ∀ {a b : NodeId}, HReach (replaceIds old new fuel h n) a b → HReach h a b := by
+    intro a b r
+    induction r with
+    | refl _ => exact .refl _
+    | step hn' hm _ ih =>
+      obtain ⟨nd0, h0n, hor⟩ := e.nodes _ _ hn'
+      refine .step h0n ?_ ih
+      rcases hor with rfl | rfl
+      · exact hm
+      · rw [Node.ren_links] at hm; exact hm
+  exact replaceIds_free old new hne fuel h n hi.wf hlt x (hback hx)
+
 end update
 
 end GlueVerif.DerivedHeap
